@@ -10,6 +10,7 @@ import (
 	"strings"
 	"unicode/utf8"
 
+	"github.com/goccy/go-json/verifsim"
 	"vsim/plan"
 )
 
@@ -60,6 +61,35 @@ var boundaryFloats = []float64{0, 1, -1, 0.5, 1.5, 1e21, 1e-7, 1e20, 123456789.1
 	3.141592653589793, -2.5e-10, 1e6, 100, 0.1, 1.7976931348623157e308, 5e-324, 4.9406564584124654e-324, 16777216, 0.30000000000000004}
 
 // ---------------------------------------------------------------- filler
+
+// rawGuards: buffers of the caller that RawMessage values of the current step
+// are sub-slices of; checked after the call (C12: the library must not write
+// into the caller's memory, not even behind the message).
+type rawGuard struct {
+	full []byte
+	n    int
+	want string
+}
+
+var rawGuards []rawGuard
+
+func checkRawGuards() string {
+	if verifsim.Active() {
+		return ""
+	}
+	defer func() { rawGuards = rawGuards[:0] }()
+	for _, g := range rawGuards {
+		if string(g.full[:g.n]) != g.want {
+			return fmt.Sprintf("a RawMessage of the value was modified by the call: %q -> %q", g.want, g.full[:g.n])
+		}
+		for i := g.n; i < len(g.full); i++ {
+			if g.full[i] != 0xA5 {
+				return fmt.Sprintf("the call wrote into the caller's buffer behind a RawMessage %q (byte %d of the spare capacity is now %#x)", g.want, i-g.n, g.full[i])
+			}
+		}
+	}
+	return ""
+}
 
 // smallMaps is set from the plan's configuration (see plan.Config.SmallMaps).
 var smallMaps bool
@@ -171,7 +201,19 @@ func (f *filler) fill(v reflect.Value, depth int) {
 			v.Set(reflect.Zero(t))
 			return
 		}
-		v.SetBytes([]byte(raws[r.Intn(len(raws))]))
+		// the message is a sub-slice of a larger buffer of the caller (spare
+		// capacity behind it, filled with a marker that must survive every call)
+		raw := raws[r.Intn(len(raws))]
+		full := make([]byte, len(raw)+16)
+		copy(full, raw)
+		for i := len(raw); i < len(full); i++ {
+			full[i] = 0xA5
+		}
+		if !verifsim.Active() {
+			// (single-goroutine plans only: the list is harness state shared by all steps)
+			rawGuards = append(rawGuards, rawGuard{full: full, n: len(raw), want: raw})
+		}
+		v.SetBytes(full[:len(raw):len(full)])
 		return
 	}
 	deep := depth >= 4 || f.nodes > 300
